@@ -120,7 +120,7 @@ CHECKS["C03"] = dict(
     rule="one run = one seeded op history on one structure (C ring API, igris::ring<char>, igris::ring<int>, cyclic_buffer+ring_counter) with phases in which only "
          "one side runs. non-trivial = the ring wrapped and was full (C ring: and empty again after carrying data); distinct = distinct hash of the op/result trace",
     simtime_units="elements moved through the ring",
-    probes=["wrapped", "full_reject", "empty_reject", "byte_0xFF_read", "bulk_move_across_wrap", "negative_fixup", "resize", "get_last_across_wrap"],
+    probes=["wrapped", "full_reject", "empty_reject", "byte_0xFF_read", "bulk_move_across_wrap", "negative_fixup", "resize", "get_last_across_wrap", "store_with_throwing_constructor", "typed_dma_push"],
     assumptions=["single caller at a time (no concurrent producer/consumer inside one ring operation)", "cyclic_buffer::operator[] index in [0,size)"],
 )
 
@@ -146,7 +146,7 @@ CHECKS["C10"] = dict(
          "LIFO/FIFO/random free orders and client deaths. non-trivial = (heap) a block freed between two live neighbours and a later request served from the free list, "
          "(pools) the pool was exhausted and refilled; distinct = distinct hash of the op/result trace",
     simtime_units="allocator operations",
-    probes=["coalesce_both_sides", "reused_free_chunk", "grow_in_place", "extend_top", "move_realloc", "shrink_split", "brk_lowered", "pool_exhausted", "heap_contended", "object_pool_odd_element_size", "pool_reinit"],
+    probes=["coalesce_both_sides", "reused_free_chunk", "grow_in_place", "extend_top", "move_realloc", "shrink_split", "brk_lowered", "pool_exhausted", "heap_contended", "object_pool_odd_element_size", "pool_reinit", "pool_capacity_zero"],
     assumptions=["at most 60 live heap blocks (the heap asserts < 100)", "requests stay within the arena (the heap has no upper bound check)", "pool element size >= sizeof(void*)"],
 )
 
